@@ -118,8 +118,10 @@ func (o *StringOperation) IN(left Operand, right Operand) (bool, error) {
 	if !ok {
 		return ok, newErrInvalidOperand(right, rightVal)
 	}
+	// membership uses the equality of EQ: case-insensitive
+	leftVal = strings.ToLower(leftVal)
 	for _, val := range rightVal {
-		if leftVal == val {
+		if leftVal == strings.ToLower(val) {
 			return true, nil
 		}
 	}
